@@ -17,7 +17,8 @@ import impl_model as im
 from props import c06
 
 THEOREMS = ['C01_passthrough_roundtrip', 'C01_echo_lex', 'C01_lex_wrap', 'C01_join_tokens', 'C01_coordinate_precision', 'C01_sof_u_precision',
-            'C01_denote_scaled_close', 'C01_wght_written_denotes', 'C01_fvar_lines_shape', 'C01_sfac_lines_shape', 'C01_roundtrip_example', 'C01_scaled_examples']
+            'C01_denote_scaled_close', 'C01_wght_written_denotes', 'C01_fvar_lines_shape', 'C01_sfac_lines_shape', 'C01_u_lossless', 'C01_u_flat_refuted',
+            'C01_old_threshold_refuted', 'C01_u_written_examples', 'C01_roundtrip_example', 'C01_scaled_examples']
 HEAD = ['TITL test', 'CELL 0.71073 10.5 11.2 12.3 90 95.5 90', 'ZERR 4 0.001 0.002 0.003 0.01 0.02 0.03', 'LATT 1', 'SYMM -X, 1/2+Y, 1/2-Z',
         'SFAC C H O N', 'UNIT 16 20 4 2', 'FVAR 1.0 0.6 0.3']
 ATOMS = ['C1 1 0.1 0.2 0.3 11.0 0.04', 'O1 3 0.2 0.3 0.4 11.0 0.05', 'N1 4 0.3 0.3 0.4 11.0 0.05', 'C2 1 0.4 0.2 0.3 11.0 0.04']
@@ -130,6 +131,9 @@ def same_entry(a, b):
             if len(u1) != len(u2) or not all(close(p, q, 5.1e-3) for p, q in zip(u1, u2)):
                 return 'displacement parameters'
             return None
+        # the recorded degenerate case: U33, U23, U13, U12 all 0.00000 at the written precision, U22 not: written with U11 only
+        if len(u1) == 6 and len(u2) == 1 and close(u1[0], u2[0], 1e-5) and all(abs(v) <= 0.5e-5 for v in u1[2:]) and abs(u1[1]) > 1e-5:
+            return 'flat-adp'
         # values that are not written are zero: an atom whose U22..U12 vanish at the written precision may be written with one U value
         if (len(u1) != len(u2) and max(len(u1), len(u2)) > 6) or not all(close(p, q, 1e-5) for p, q in zip((list(u1) + [0.0] * 6)[:6], (list(u2) + [0.0] * 6)[:6])):
             return 'displacement parameters'
@@ -172,6 +176,10 @@ def roundtrip(ctx, text, what, stats):
             common.add_violation(ctx, 'the U value of a Q-peak is replaced by 0.04 on writing', dict(case, written=out), x, y, cls='qpeak_u_written_as_0.04')
             n += 1
             continue
+        if d == 'flat-adp':
+            common.add_violation(ctx, 'an anisotropic atom whose U33..U12 are all 0.00000 is written with U11 only (U22 is lost)', dict(case, written=out), x, y,
+                                 cls='flat_adp_written_isotropic')
+            continue
         if d:
             common.add_violation(ctx, 'written file differs from the input in crystallographic content: %s (%s)' % (d, what), dict(case, written=out), x, y)
             return shx, out
@@ -196,7 +204,7 @@ def covering_files(rng):
                 yield '\n'.join(HEAD + ATOMS[:2] + [' '.join(toks)] + ATOMS[2:] + TAIL) + '\n', kw
     special = [
         ['UNIT 1200 2400 16 2'], ['UNIT 16.5 20 4 2'], ['ACTA NOHKL'], ['ACTA 50 NOHKL'], ['ACTA'], ['SIZE 0.1'], ['SIZE 0.1 0.2'], ['SIZE 0.12 0.23 0.34'],
-        ['WGHT 0.05 0 0.1 0 0 0.23333'], ['WGHT 0.05 0.3 0 0 0 0.5'], ['WGHT 0.1'], ['WGHT'], ['STIR 1.5'], ['STIR 1.5 0.02'], ['STIR 0 0.02'], ['STIR 0'], ['DAMP 0 0'], ['ISOR 0 0 C1 O1'], ['SWAT 0 0'], ['SHEL 0 0'], ['C9 1 0.5 0.5 0.5 11.0 0.05 0.000004 0.000003 0.000004 -0.000004 0.000004'],
+        ['WGHT 0.05 0 0.1 0 0 0.23333'], ['WGHT 0.05 0.3 0 0 0 0.5'], ['WGHT 0.1'], ['WGHT'], ['STIR 1.5'], ['STIR 1.5 0.02'], ['STIR 0 0.02'], ['STIR 0'], ['DAMP 0 0'], ['ISOR 0 0 C1 O1'], ['SWAT 0 0'], ['SHEL 0 0'], ['C9 1 0.5 0.5 0.5 11.0 0.05 0.000004 0.000003 0.000004 -0.000004 0.000004'], ['C9 1 0.5 0.5 0.5 11.0 0.05 0.000004 0.000004 0.000004 0.000004 0.000004'], ['C9 1 0.5 0.5 0.5 11.0 0.05 0.04 0 0 0 0'], ['C9 1 0.5 0.5 0.5 11.0 0.05 0.00001 0 0.00001 0 0'],
         ['TEMP -173.15'], ['DAMP 0.5 0'], ['HKLF 4 1 0 1 0 1 0 0 0 0 -1 0.5 2'], ['TWIN -1 0 0 0 -1 0 0 0 1 -3'], ['BASF 0.2 0.1'],
         ['EQIV $1 -x+1, -y, -z', 'HTAB C1 O1_$1', 'RTAB Dist C1 O1_$1'], ['FREE C1 O1'], ['MPLA 4 C1 O1 N1 C2'], ['CONN 4 1.8 C1'], ['SUMP 1.0 0.01 1.0 2 1.0 3'],
         ['DISP C 0.0033 0.0016 11.5'], ['MOLE 1'], ['TIME 5'], ['NEUT'], ['ANIS'], ['ANIS 3'], ['ANIS C1 O1'], ['HFIX 43 C1'], ['RESI 1 TOL', 'C9 1 0.5 0.5 0.5 11.0 0.04', 'RESI 0'],
@@ -280,15 +288,16 @@ def run(ctx):
             if len(toks) < 7:
                 continue
             x, y, z = a._coded_coordinates if hasattr(a, '_coded_coordinates') else (a.x, a.y, a.z)
-            aniso = len(toks) >= 12
-            us = list(a.uvals)[:6] if aniso else list(a.uvals)[:1]
-            exp = [int(Fraction(t) * 10 ** 6) for t in toks[2:5]], int(Fraction(toks[5]) * 10 ** 5), [int(Fraction(t) * 10 ** 5) for t in toks[6:6 + len(us)]]
+            if len(a.uvals) != 6 or (a.afix and shx.frag):
+                continue
+            us = list(a.uvals)          # the model (Model/Fmt.v u_written) decides the kind of line from the six stored values
+            exp = [int(Fraction(t) * 10 ** 6) for t in toks[2:5]], int(Fraction(toks[5]) * 10 ** 5), [int(Fraction(t) * 10 ** 5) for t in toks[6:]]
             cases.append(('{| an_xyz := %s; an_sof := %s; an_u := %s |}' % (clist([cq(Fraction(v)) for v in (x, y, z)]), cq(Fraction(a.sof)), clist([cq(Fraction(u)) for u in us])),
                           '(%s, %s, %s)' % (clist([cz(v) for v in exp[0]]), cz(exp[1]), clist([cz(v) for v in exp[2]])), str(a)))
     if not ctx.thorough():
         cases = cases[:1500]
     pre = ('Definition zl_eqb (a b : list Z) : bool := if list_eq_dec Z.eq_dec a b then true else false.\n'
-           'Definition chk (c : atom_num * (list Z * Z * list Z)) : bool := let \'(x, s, u) := atom_scaled (fst c) in let \'(x2, s2, u2) := snd c in zl_eqb x x2 && Z.eqb s s2 && zl_eqb u u2.\n')
+           'Definition chk (c : atom_num * (list Z * Z * list Z)) : bool := let \'(x, s, u) := atom_written (fst c) in let \'(x2, s2, u2) := snd c in zl_eqb x x2 && Z.eqb s s2 && zl_eqb u u2.\n')
     step = 300
     packs = [(pre + 'Definition cs : list (atom_num * (list Z * Z * list Z)) := %s.' % clist(['(%s, %s)' % (c[0], c[1]) for c in cases[k:k + step]]), ['bad_indices chk cs'])
              for k in range(0, len(cases), step)]
@@ -298,7 +307,7 @@ def run(ctx):
         for b in common.parse_nat_list(res[0]):
             nb += 1
             if nb <= 3:
-                ctx.broken.append('correspondence: Model/Fmt.v scaled numerals differ from the written atom line %r' % cases[si * step + b][2])
+                ctx.broken.append('correspondence: Model/Fmt.v atom_written (kind of line, scaled numerals) differs from the written atom line %r' % cases[si * step + b][2])
     # ---- correspondence 3: the WGHT short form
     import itertools
     wcases = []
